@@ -1,4 +1,5 @@
 fn main() {
+    println!("cargo::rustc-check-cfg=cfg(jgilchrist_tcheran_verif)");
     build_fathom();
 }
 
